@@ -1084,9 +1084,7 @@ impl<'a> TLVSequence<'a> {
 
             while level > 0 {
                 next = next.next_enter()?;
-                len = len
-                    .checked_add(next.len()?)
-                    .ok_or(ErrorCode::TLVTypeMismatch)?;
+                len = Self::add_len(len, next.len()?)?;
 
                 let control = next.control()?;
 
@@ -1112,12 +1110,10 @@ impl<'a> TLVSequence<'a> {
     fn len(&self) -> Result<usize, Error> {
         let control = self.control()?;
 
-        let value_len = self.value_len(control)?;
-
-        // The value length is whatever the input claims: it might not fit
-        (1 + control.tag_type.size() + control.value_type.variable_size_len())
-            .checked_add(value_len)
-            .ok_or(ErrorCode::TLVTypeMismatch.into())
+        Self::add_len(
+            1 + control.tag_type.size() + control.value_type.variable_size_len(),
+            self.value_len(control)?,
+        )
     }
 
     /// Return the length of the first TLV element in the sequence, regardless of the element type.
@@ -1125,11 +1121,20 @@ impl<'a> TLVSequence<'a> {
     pub(crate) fn container_len(&self) -> Result<usize, Error> {
         let control = self.control()?;
 
-        let value_len = self.container_value_len(control)?;
+        Self::add_len(
+            1 + control.tag_type.size() + control.value_type.variable_size_len(),
+            self.container_value_len(control)?,
+        )
+    }
 
-        (1 + control.tag_type.size() + control.value_type.variable_size_len())
-            .checked_add(value_len)
-            .ok_or(ErrorCode::TLVTypeMismatch.into())
+    /// Add two lengths computed from (untrusted) TLV length fields.
+    ///
+    /// A length field can hold any value up to `u64::MAX`, so the sum is checked:
+    /// a length that does not fit in `usize` cannot lie within the input and is reported
+    /// as malformed TLV instead of overflowing.
+    #[inline(always)]
+    fn add_len(a: usize, b: usize) -> Result<usize, Error> {
+        Ok(a.checked_add(b).ok_or(ErrorCode::TLVTypeMismatch)?)
     }
 
     /// Returns a sub-slice representing the start of the next TLV element in the sequence.
